@@ -11,6 +11,7 @@ import (
 	"net"
 	"net/netip"
 	"os"
+	"strings"
 	"sync"
 	"syscall"
 	"testing"
@@ -69,7 +70,19 @@ func runTeardown(t *testing.T, monitor bool, fault string, flood int, busy time.
 			HopLimit: 64, DefaultLifetime: 1800 * time.Second, Plugins: []plugin.Plugin{&plugin.LLA{}}}
 		mm := NewMetrics(metricslite.NewMemory(), "test", time.Time{}, state, []config.Interface{cfg})
 		cctx := NewContext(log.New(io.Discard, "", 0), mm, state)
+		var both sync.WaitGroup
+		both.Add(2)
 		onWrite := func(w *vWrite) error {
+			if fault == "FWrite2Syscall" && !w.Dst.IsMulticast() && w.Dst != netip.MustParseAddr("fe80::77") {
+				// two transmissions in flight at once, both fail
+				both.Done()
+				both.Wait()
+				mu.Lock()
+				failAt = vNow()
+				failing = false
+				mu.Unlock()
+				return faultErr("Syscall")
+			}
 			if busy > 0 && w.Dst == netip.MustParseAddr("fe80::b") {
 				// another transmission is in flight (slow) while the failing one reports its error
 				time.Sleep(busy)
@@ -146,6 +159,24 @@ func runTeardown(t *testing.T, monitor bool, fault string, flood int, busy time.
 					time.Sleep(time.Duration(j)*50*time.Millisecond + time.Millisecond)
 				}
 			}
+		case "FWrite2Syscall":
+			mu.Lock()
+			failing = true
+			mu.Unlock()
+			old.readC <- rs("fe80::2")
+			old.readC <- rs("fe80::3")
+			for i := 0; i < 600; i++ {
+				time.Sleep(time.Millisecond)
+				mu.Lock()
+				f := failing
+				mu.Unlock()
+				if !f {
+					break
+				}
+			}
+			mu.Lock()
+			faultAt = failAt
+			mu.Unlock()
 		case "FWriteSyscall", "FWritePerm", "FWriteOther":
 			if busy > 0 {
 				old.readC <- rs("fe80::b")
@@ -254,7 +285,7 @@ func TestVerifC10TD(t *testing.T) {
 	if verifh.Thorough() {
 		floods = []int{0, 1, 5, 15, 16, 17, 18, 40, 100}
 	}
-	faults := []string{"FReadSyscall", "FReadPerm", "FReadOther", "FTimeouts5", "FWriteSyscall", "FWritePerm", "FWriteOther", "FLink", "FWatchClosed"}
+	faults := []string{"FReadSyscall", "FReadPerm", "FReadOther", "FTimeouts5", "FWriteSyscall", "FWrite2Syscall", "FWritePerm", "FWriteOther", "FLink", "FWatchClosed"}
 	for _, mon := range []bool{false, true} {
 		for _, f := range faults {
 			if mon && len(f) > 6 && f[:6] == "FWrite" {
@@ -276,7 +307,7 @@ func TestVerifC10TD(t *testing.T) {
 				slack := int64(busy)
 				out.Emit(verifh.Case{
 					ID: id,
-					Coq: "(CTd " + verifh.App("mkTd", verifh.B(mon), f, verifh.Z(int64(fl)), res.outcome, verifh.Z(res.delay), verifh.Z(slack),
+					Coq: "(CTd " + verifh.App("mkTd", verifh.B(mon), strings.Replace(f, "FWrite2", "FWrite", 1), verifh.Z(int64(fl)), res.outcome, verifh.Z(res.delay), verifh.Z(slack),
 						verifh.Z(int64(res.ioAfter)), verifh.B(res.canary), verifh.B(res.leak)) + ")",
 					Input:    map[string]any{"monitor": mon, "fault": f, "flood": fl},
 					Observed: map[string]any{"outcome": res.outcome, "delay_ns": res.delay, "io_after": res.ioAfter, "canary": res.canary, "leak": res.leak},
